@@ -1,23 +1,28 @@
+_T = "C06_blocks_spec / C06_consume_token_spec (tokens), C06_tokenize_total (no panic), C06_positions_spec (line / byte column), C06_important_spec / C06_declaration_spec / C06_decl_list_compositional / C06_rule_list_compositional (parsers), C06_nth_spec (An+B)"
 SPEC = {
     "id": "C06",
     "harness": "c06",
     "n": {"quick": 4000, "thorough": 60000},
     "shard": 250,
     "trusted_base": [
-        "strconv.ParseFloat/ParseInt, regexp, unicode/utf8 of the Go standard library (number values are not compared; the representation string and the integer flag are)",
+        "strconv.ParseFloat/ParseInt, regexp, unicode/utf8 of the Go standard library (the float32 value of numeric tokens is not compared; the representation string and the integer flag are)",
         "/repo hook css/parser/verif_export_c06.go (read-only accessors of unexported token flags and parse-error kinds)",
-        "the model works on the code points of the valid UTF-8 input; byte columns are recomputed from UTF-8 widths",
+        "the model works on the code points of the valid UTF-8 input (harness prints the runes of the Go string); byte columns are recomputed from UTF-8 widths",
+        "Base/F32.v rounding model for numberVal.Int() in ParseNth (validated by C17's CRound cases)",
     ],
-    "not_modelled": ["invalid UTF-8 input", "ParseError.Message strings", "float32 value of numeric tokens", "colors.go"],
+    "not_modelled": ["invalid UTF-8 input", "ParseError.Message strings", "float32 value of numeric tokens (ValueF)",
+                     "colors.go (ParseColor)", "goroutine stack depth (the recursive tokenizer overflows the stack at ~10^6 nesting levels, see C07 finding deep-nesting-stack-overflow)",
+                     "ParseOneComponentValue / ParseFunction / SplitOnComma helpers"],
     "codes": {"1": "implementation result (token/compound tree with flags and positions) differs from the model's",
               "2": "skipped",
               "3": "implementation panicked or hung where the model (proved total) returns a value",
               "4": "model panics / runs out of fuel where the implementation returned"},
-    "theorems_for_kind": {},
-    "rule": "SplitMix64-seeded: corpus, all strings of length <= 2 (thorough 3) over a 21-symbol alphabet, random short strings, grammar-directed token soups with escapes and nesting, declaration-list / rule-list / An+B shaped texts, css-parsing-tests inputs, and prefix / single-rune deletion / replacement / insertion mutations of all of them; non-trivial = at least 2 code points; distinct by (entry point, flags, source)",
+    "theorems_for_kind": {k: _T for k in ["corpus", "exhaust", "short", "soup", "decls", "rules", "nth", "tests",
+                                          "mut-prefix", "mut-delete", "mut-replace", "mut-insert", "mut-none"]},
+    "rule": "SplitMix64-seeded: corpus (witnesses of the fixed defects), all strings of length <= 2 (thorough 3) over a 21-symbol alphabet, random short strings, grammar-directed token soups with escapes and nesting depth <= 6, declaration-list / rule-list / An+B shaped texts, css-parsing-tests inputs, and prefix / single-rune deletion / replacement / insertion mutations of all of them; entry points Tokenize (both modes), ParseStylesheetBytes, ParseBlocksContentsString, ParseDeclarationListString, ParseOneDeclaration, ParseNth; non-trivial = at least 2 code points; distinct by (entry point, flags, source)",
 }
 MANIFEST = {
-    "text": "Coq model of css/parser tokenizer.go / parser.go / nth.go proved total and equal to a transcription of CSS Syntax Level 3 (consume-a-token + tree construction), compared on every run with /repo on complete token / compound trees (flags, byte positions) by vm_compute",
-    "note": "Trusted: Coq kernel (vm_compute), Go harness + hook css/parser/verif_export_c06.go, strconv (number values). Valid UTF-8 only.",
+    "text": "Coq model of css/parser tokenizer.go / parser.go / nth.go (line-by-line port over code points, panics visible) proved total and proved equal, for every valid UTF-8 text, to an independent two-phase transcription of CSS Syntax Level 3 (3.3 preprocessing, 4.3 consume-a-token incl. escapes/strings/urls/numbers, 5.4.7-9 blocks and functions) modulo a documented presentation map; declaration lists / rule lists proved compositional at ';' / '{}' (exact error recovery), !important and declarations proved = 5.4.6, ParseNth proved = the <an+b> grammar, positions proved = (1+newlines, 1+bytes since newline) per iteration. The model is compared with /repo on every run by vm_compute on complete token / compound trees (flags, byte positions) for six entry points.",
+    "note": "Trusted: Coq kernel (vm_compute), Go harness + hook css/parser/verif_export_c06.go, strconv (number values), F32 rounding model for Int(). Valid UTF-8 only. Partial: text-level compositionality is stated (C06_text_compositional_statement, validated on all short strings) with the token-level theorem proved; the {} rule of the css-syntax draft inside declarations and ParseBlocksContents have no spec theorem (model = implementation only); positions are proved per iteration, not as a predicate over the tree; colors.go not modelled. Six spec deviations of /repo were found and fixed (5 in the tokenizer/parser found by the model, 1 found by the proof of important_spec).",
     "technique": "Coq proof over executable model + vm_compute correspondence with the Go implementation",
 }
